@@ -463,7 +463,46 @@ func (fc *FuncCtx) GuardedBy(from int, edges []Edge, target int) bool {
 // SuccessGuards reports whether target is only reachable after the call at cs returned with
 // its last result (error) nil.
 func (cs CallSite) SuccessGuards(target int) bool {
-	return cs.FC.GuardedBy(cs.V, cs.ResultEdges(-1, WantNil), target)
+	fc := cs.FC
+	if fc.GuardedBy(cs.V, cs.ResultEdges(-1, WantNil), target) {
+		return true
+	}
+	// The error variable may have other definitions that reach the same test (several failure
+	// sites assigning one variable that is tested once, as after expanding a helper whose last
+	// statement is `return f()`). Starting from the call, a test of the variable speaks about
+	// this call's result as long as no other definition was passed on the way: explore from the
+	// call with the variable's nil edges closed, stop at other definitions, and require that
+	// the target is reachable neither directly nor from any such definition met on the way.
+	obj := cs.ResultVar(-1)
+	if obj == nil || cs.V == target || len(fc.nonDeferredLitAssigns(obj)) > 0 || !fc.G.Dominates([]int{cs.V}, target) {
+		return false
+	}
+	tests := map[Edge]bool{}
+	for _, e := range fc.TestEdges(func(x ast.Expr) bool { return objOf(fc.Info(), x) == obj }, WantNil) {
+		tests[e] = true
+	}
+	if len(tests) == 0 {
+		return false
+	}
+	other := map[int]bool{}
+	for _, d := range fc.Defs(obj) {
+		if d != cs.V {
+			other[d] = true
+		}
+	}
+	r1 := fc.G.ReachAfter(cs.V, func(v *Vertex) bool { return v.ID == cs.V || other[v.ID] }, func(e Edge) bool { return tests[e] })
+	if r1[target] {
+		return false
+	}
+	r1b := fc.G.ReachAfter(cs.V, func(v *Vertex) bool { return v.ID == cs.V }, func(e Edge) bool { return tests[e] })
+	for d := range other {
+		if r1b[d] {
+			if d == target || fc.G.ReachAfter(d, func(v *Vertex) bool { return v.ID == cs.V }, nil)[target] {
+				return false
+			}
+		}
+	}
+	return true
 }
 
 // Between reports whether some path from (after) vertex a reaches b without passing a vertex in avoid.
